@@ -1,5 +1,5 @@
 (* C01 proofs *)
-From Coq Require Import List Arith ZArith QArith Bool Lqa Lia.
+From Coq Require Import List Arith ZArith QArith Bool Lqa Lia Sorted.
 From Gst Require Import lib.QAux lib.LinAlgQ C01.Model.
 Import ListNotations.
 Local Open Scope Q_scope.
@@ -265,3 +265,28 @@ Proof.
     exact (krige_weights_solve k o H l v Hl Hv). }
   rewrite Hq. rewrite (fdot_comm (nred k) (fun a => get (o_rhs o) a v)). ring.
 Qed.
+
+(* the compressed system keeps the equations in their original order (variable-major, then sample, then drift) without repetition *)
+Lemma filter_seq_sorted (f : nat -> bool) s n : StronglySorted lt (filter f (seq s n)).
+Proof.
+  revert s; induction n as [|n IH]; intros s; [constructor|].
+  cbn [seq filter]. destruct (f s).
+  - constructor; [apply IH|].
+    apply Forall_forall. intros x Hx. apply filter_In in Hx. destruct Hx as [Hx _].
+    apply in_seq in Hx. lia.
+  - apply IH.
+Qed.
+
+Lemma sorted_nth_lt (l : list nat) : StronglySorted lt l ->
+  forall a b, (a < b)%nat -> (b < length l)%nat -> (nth a l O < nth b l O)%nat.
+Proof.
+  intro H. induction H as [|x l Hs IH Hf]; intros a b Hab Hb; [cbn in Hb; lia|].
+  destruct b as [|b]; [lia|]. cbn [length] in Hb.
+  destruct a as [|a]; cbn [nth].
+  - rewrite Forall_forall in Hf. apply Hf. apply nth_In. lia.
+  - apply IH; lia.
+Qed.
+
+Lemma active_increasing k a b : (a < b)%nat -> (b < nred k)%nat ->
+  (nth a (active k) O < nth b (active k) O)%nat.
+Proof. intros Hab Hb. apply sorted_nth_lt; [apply filter_seq_sorted|exact Hab|exact Hb]. Qed.
